@@ -648,7 +648,7 @@ func (m *model) search(s *mstate, done uint64) bool {
 
 // runModel searches once; relax selects tolerated deviations.
 func (wd *world) runModel(relax int) *model {
-	m := &model{wd: wd, nsrv: len(wd.s.Servers), relax: relax, budget: 300000, memo: map[string]bool{}}
+	m := &model{wd: wd, nsrv: len(wd.s.Servers), relax: relax, budget: modelBudget, memo: map[string]bool{}}
 	m.evs = wd.buildEvents(relax&relaxStaleTimer != 0)
 	sort.SliceStable(m.evs, func(i, j int) bool {
 		a, b := m.evs[i], m.evs[j]
@@ -682,8 +682,8 @@ func (wd *world) checkModel() {
 	e := wd.e
 	m := wd.runModel(0)
 	ok, decided := m.run()
-	e.ProbeN("model_nodes", 300000-m.budget)
-	if 300000-m.budget > 20000 {
+	e.ProbeN("model_nodes", modelBudget-m.budget)
+	if modelBudget-m.budget > 20000 {
 		e.Probe("model_search_large")
 	}
 	if !decided {
@@ -708,7 +708,7 @@ func (wd *world) checkModel() {
 			continue
 		}
 		rm := wd.runModel(relax)
-		rm.budget = 100000
+		rm.budget = modelBudget / 4
 		if ok, _ := rm.run(); !ok {
 			continue
 		}
@@ -726,3 +726,7 @@ func (wd *world) checkModel() {
 	}
 	e.Violate(oracle, "no order of the events explains the observations; %s", detail)
 }
+
+// modelBudget bounds the search (nodes). A run whose search does not finish is
+// counted under the probe model_undecided and not judged by the model.
+const modelBudget = 60000
